@@ -373,6 +373,7 @@ def run(chk, F):
     # the trap's return address (where its position is recorded) must lie inside the function (engine of C10.R5)
     from rules import c10
     c10.rule_r5(chk, F, rid="C14.R4")
+    c10.rule_r8(chk, F, rid="C14.R7")
     rule_r5(chk, F)
     chk.assumptions += [
         "decides provenance of positions, agreement of trap tables and flush-before-_exit; correctness of the "
